@@ -1368,6 +1368,18 @@ class Emitter:
                     n = int(m.group(2))
                     return 'static ' + d + ' = {' + ', '.join('(%s)(@@CONST:%s[%d]@@)' % (self.ctype_s(m.group(1)), name, i) for i in range(n)) + '};\n'
                 return 'static ' + d + ' = ' + self.init(init[0]) + ';\n'
+            if self._has_call(init[0]):
+                # dynamic initialiser computed by calls (C has none, and an initialiser placed before the callee's prototype would make the
+                # callee implicitly `int`): take the values the real program has after static initialisation, from the constant printer
+                m = re.match(r'^(.*?)\[(\d+)\]$', q.strip())
+                if m and self._scalar(m.group(1)):
+                    self.hit('global array initialised by calls -> start-up values from the constant printer')
+                    self.const_placeholders[name] = o
+                    n = int(m.group(2))
+                    txt = '{' + ', '.join('(%s)(@@CONST:%s[%d]@@)' % (self.ctype_s(m.group(1)), name, i) for i in range(n)) + '}'
+                    self.mutable_inits[name] = (o, txt)
+                    return d + ' = ' + txt + ';\n'
+                raise Unsupported('global %s has an initialiser computed by calls (only arrays of scalars are supported)' % name)
             self.mutable_inits[name] = (o, self.init(init[0]))
             return d + ' = ' + self.init(init[0]) + ';\n'
         return d + ';\n'
